@@ -68,8 +68,8 @@ impl Prop for C01 {
     }
     fn budget(&self, tier: Tier) -> u64 {
         match tier {
-            Tier::Quick => 120_000,
-            Tier::Thorough => 4_000_000,
+            Tier::Quick => 400_000,
+            Tier::Thorough => 6_000_000,
         }
     }
     fn required_labels(&self) -> Vec<&'static str> {
@@ -85,6 +85,18 @@ impl Prop for C01 {
         ]
     }
 
+    fn enumerate(&self, tier: Tier, shard: usize, nshards: usize, f: &mut dyn FnMut(Case)) {
+        let mut idx = 0usize;
+        super::enumer::for_each_enc_case(tier, false, false, false, &mut |env, call| {
+            idx += 1;
+            if idx % nshards == shard {
+                f(Case { enc: EncCase { env, call }, recv: CtxCfg { addr: 0x11, msg_types: vec![1, 2, 3], vendors: vec![(1, 0x11223344, 5), (0, 0x1234, 6)] }, recv_hist: vec![] });
+            }
+        });
+    }
+    fn enumerated_desc(&self, _tier: Tier) -> Option<String> {
+        Some(ENC_ENUM_DESC.to_string())
+    }
     fn run(&self, case: &Case) -> CaseResult {
         let mut r = CaseResult::default();
         let env = &case.enc.env;
